@@ -365,6 +365,7 @@ pub fn model_lines(run: &mut Run, tier: &str, seed: u64, only: Option<&str>) {
         }
     }
     susp_model_lines(run, tier, seed, only);
+    stk_model_lines(run, tier, seed, only);
 }
 
 // ------------------------------------------------------------------------------------------------
@@ -725,6 +726,151 @@ pub fn susp_model_lines(run: &mut Run, tier: &str, seed: u64, only: Option<&str>
         let id = format!("m:susp:{i}");
         if want(&id) {
             susp_case(run, &id, *mode, groups, &tpl, *expect);
+        }
+    }
+}
+
+// ------------------------------------------------------------------------------------------------
+// osu! stacking passes (`stacking`, `old_stacking`) vs Model/StackingFull.lean: STK lines
+
+use rosu_pp::{
+    model::hit_object::Pos,
+    osu::verif::{stacking_probe_map, stacking_probe_synth, StackProbe, StackSynthKind},
+};
+
+fn pos_hex(p: Pos) -> String {
+    format!("{:x},{:x}", p.x.to_bits(), p.y.to_bits())
+}
+
+fn stk_request(old: bool, thr: f64, probe: &StackProbe) -> String {
+    use std::fmt::Write as _;
+    let mut s = format!("STK {} {:x} ", if old { "old" } else { "new" }, thr.to_bits());
+    if probe.objects.is_empty() {
+        s.push('-');
+    }
+    for (i, o) in probe.objects.iter().enumerate() {
+        if i > 0 {
+            s.push(';');
+        }
+        let _ = write!(
+            s,
+            "{}:{:x}:{:x}:{:x}:{:x}:{:x}:{:x}:{}:{}:{}",
+            o.kind,
+            o.pos.x.to_bits(),
+            o.pos.y.to_bits(),
+            o.start_time.to_bits(),
+            o.end_time.to_bits(),
+            o.end_pos.x.to_bits(),
+            o.end_pos.y.to_bits(),
+            o.repeat_count,
+            o.tail.map_or("-".to_owned(), pos_hex),
+            o.first_repeat.map_or("-".to_owned(), pos_hex),
+        );
+    }
+    s
+}
+
+fn heights_str(h: &[i32]) -> String {
+    if h.is_empty() {
+        "e".to_owned()
+    } else {
+        h.iter().map(i32::to_string).collect::<Vec<_>>().join(",")
+    }
+}
+
+/// Runs one pass through `probe_fn(old)`; a panic of the pass becomes the observed value `PANIC` (the
+/// feature snapshot is then taken from the other pass, it does not depend on the pass).
+fn stk_line(old: bool, thr: f64, probe_fn: &dyn Fn(bool) -> StackProbe) -> Option<(String, String)> {
+    match guarded(|| probe_fn(old)) {
+        Ok(p) => Some((stk_request(old, thr, &p), heights_str(&p.heights))),
+        Err(_) => guarded(|| probe_fn(!old)).ok().map(|p| (stk_request(old, thr, &p), "PANIC".to_owned())),
+    }
+}
+
+/// STK lines (both passes) of an osu! map's objects as `convert_objects` builds them
+pub fn stk_lines_of_map(map: &Beatmap, thr: f64) -> Vec<(String, String)> {
+    [false, true].into_iter().filter_map(|old| stk_line(old, thr, &|o| stacking_probe_map(map, o, thr))).collect()
+}
+
+fn stk_synth_case(run: &mut Run, id: &str, objs: &[(Pos, f64, StackSynthKind)], thr: f64) {
+    for old in [false, true] {
+        run.count("model:STK synthetic");
+        match stk_line(old, thr, &|o| stacking_probe_synth(objs, o, thr)) {
+            Some((req, obs)) => {
+                if obs == "PANIC" {
+                    run.fail("oracle:panic", "", id, format!("{} panicked on a synthetic object list", if old { "old_stacking" } else { "stacking" }), req.chars().take(2000).collect());
+                } else {
+                    if obs.split(',').any(|h| h != "0" && h != "e") {
+                        run.count("model:STK synthetic with non-zero heights");
+                    }
+                    if obs.contains('-') {
+                        run.count("model:STK synthetic with negative heights");
+                    }
+                }
+                run.line(id, req, obs);
+            }
+            None => run.fail("oracle:panic", "", id, "both stacking passes panicked on a synthetic object list".into(), format!("{objs:?}").chars().take(2000).collect()),
+        }
+    }
+    run.eval(Some(id));
+}
+
+pub fn stk_model_lines(run: &mut Run, tier: &str, seed: u64, only: Option<&str>) {
+    let want = |id: &str| only.is_none_or(|o| o == id);
+    let thorough = tier == "thorough";
+    let mut rng = Rng::new(seed ^ 0x53544b);
+    let n = if thorough { 6000 } else { 600 };
+    // offsets around STACK_DISTANCE = 3.0 (f32 distance via f64 sqrt)
+    let jit: [f32; 11] = [0.0, 0.0, 0.0, 1.0, 2.0, 2.9, 2.999_999_8, 3.0, 3.000_000_2, 2.121_32, 2.121_320_5];
+    for i in 0..n {
+        let id = format!("m:stk:{i}");
+        let len = match rng.below(6) {
+            0 => rng.range(0, 3),
+            1..=3 => rng.range(3, 14),
+            4 => rng.range(14, 40),
+            _ => rng.range(40, if thorough { 160 } else { 80 }),
+        } as usize;
+        let n_spots = rng.range(1, 4) as usize;
+        let spots: Vec<(f32, f32)> = (0..n_spots).map(|_| (rng.range(0, 512) as f32, rng.range(0, 384) as f32)).collect();
+        let near = |rng: &mut Rng| {
+            let s = *rng.pick(&spots);
+            let (dx, dy) = (*rng.pick(&jit), *rng.pick(&jit));
+            Pos::new(s.0 + if rng.chance(1, 2) { dx } else { -dx }, s.1 + if rng.chance(1, 2) { dy } else { -dy })
+        };
+        let thr = *rng.pick(&[0.0, 100.0, 450.0, 840.0, 1260.0, 1.0e9, f64::INFINITY, -50.0]);
+        let mut t = *rng.pick(&[0.0, 1000.5, -300.0, 16_777_216.0]);
+        let mut objs = Vec::with_capacity(len);
+        for _ in 0..len {
+            t += *rng.pick(&[0.0, 1.0, 50.0, 100.0, 100.0, 250.0, 449.0, 450.0, 451.0, 840.0, 2000.0]);
+            if rng.chance(1, 25) {
+                t -= 700.0; // unsorted
+            }
+            let kind = match rng.below(20) {
+                0..=10 => StackSynthKind::Circle,
+                11..=16 => {
+                    let dur = *rng.pick(&[0.0, 30.0, 100.0, 400.0, 900.0]);
+                    let mut nested = Vec::new();
+                    let reps = rng.below(4);
+                    for _ in 0..rng.below(3) {
+                        nested.push((near(&mut rng), 2));
+                    }
+                    for _ in 0..reps {
+                        nested.push((near(&mut rng), 0));
+                    }
+                    if !rng.chance(1, 8) {
+                        nested.push((near(&mut rng), 1));
+                    }
+                    if rng.chance(1, 10) {
+                        nested.push((near(&mut rng), 2)); // the tail is not always the last nested object
+                    }
+                    StackSynthKind::Slider { end_time: t + dur, nested }
+                }
+                _ => StackSynthKind::Spinner { duration: *rng.pick(&[0.0, 100.0, 1000.0, -50.0]) },
+            };
+            objs.push((near(&mut rng), t, kind));
+        }
+        if want(&id) {
+            stk_synth_case(run, &id, &objs, thr);
         }
     }
 }
